@@ -39,10 +39,10 @@ def gen_cases(rng, tier, rnd):
                 cases.append({'spec': s, 'rank': rank, 'abs': hx(c), 'hint': 'S', 'phase': rng.randint(0, 5)})
     while len(cases) < n:
         a = gencfg.cnf_shaped_cfg(rng) if rng.random() < 0.08 else gencfg.abstract_cfg(rng)
-        big = rng.random() < 0.12
+        big = rng.random() < 0.2
         if big:
-            a = gencfg.pad_variables(rng, a, rng.randint(23, 30))
-        s, rank = gencfg.rename(a, rng, multi_p=(0.3 if big else rng.choice([0.0, 0.0, 0.2])))
+            a = gencfg.pad_variables(rng, a, rng.choice([22, 23, 24, 24, 25, 25, 26, 26, 27, 30]))
+        s, rank = gencfg.rename(a, rng, multi_p=(rng.choice([0.0, 0.3]) if big else rng.choice([0.0, 0.0, 0.2])), upper_only=rng.random() < 0.7)
         # hint for the new start variable: clashes with an existing variable in a share of the cases
         hint = rng.choice(['S', 'S', s['S'], rng.choice(s['V']), 'T', 'S0'])
         case = {'spec': s, 'rank': rank, 'abs': hx(a), 'hint': hint, 'phase': rng.randint(0, 5)}
